@@ -185,9 +185,52 @@ def jobs(tier, seed):
     if E.A is None:
         common.env_setup()
         E.worker_init()
-    js = E.make_jobs(tier, seed, sib='reps', per_signature=(tier == 'quick'),
-                     prefix_sets=E.PREFIX_SETS_QUICK if tier == 'quick' else [(), (0x66,), (0x67,), (0x66, 0x67), (0x2E,), (0xF2,), (0xF3,), (0xF0,), (0x67, 0x26)])
-    return [('dec', j, tier) for j in js]
+    if tier == 'quick':
+        js = E.make_jobs(tier, seed, sib='reps', per_signature=True, prefix_sets=E.PREFIX_SETS_QUICK)
+    else:
+        js = E.make_jobs(tier, seed, sib='reps', per_signature=False, prefix_sets=[(), (0x66,), (0x67,)])
+        js += E.make_jobs(tier, seed, sib='min', per_signature=False, prefix_sets=[(0x66, 0x67), (0x2E,), (0xF2,), (0xF3,), (0xF0,), (0x67, 0x26)])
+    out = [('dec', j, tier) for j in js]
+    # the rendering clauses depend on the mnemonic, not on the row signature: every row once, concretely
+    rs = E.rows()
+    for k in range(0, len(rs), 40):
+        out.append(('render', [(r[0], r[1]) for r in rs[k:k + 40]], tier))
+    return out
+
+
+def run_render(job, res):
+    """witness-level rendering / truncation / stream clauses for EVERY row of the trie (concrete representative bytes)"""
+    rows, tier = job[1], job[2]
+    seen = set()
+    for opc, last in rows:
+        lasts = [None] if last is None else [last[0], last[-1]]
+        for lb in lasts:
+            for pfx in ((), (0x66,), (0x67,), (0xF3,), (0x2E,)):
+                for tail in (b'\x00' * 11, b'\xc1\x24\x11\x22\x33\x44\x55\x66\x77\x00\x00', b'\x84\x24' + b'\xff' * 9, b'\xff' * 11):
+                    data = bytes(pfx) + bytes(opc) + (bytes([lb]) if lb is not None else b'') + tail
+                    try:
+                        i = E.A.x86mnemo.dis(data)
+                    except Exception as ex:
+                        key = exc_key('dis', ex)
+                        if key not in seen:
+                            seen.add(key)
+                            res['candidates'].append({'key': key, 'desc': 'dis raises %s: %s e.g. %s' % (type(ex).__name__, str(ex)[:50], data.hex()),
+                                                      'data': {'kind': 'dis', 'bytes': list(data), 'what': 'exc', 'key': key}})
+                        continue
+                    if i is None:
+                        continue
+                    res['obligations'] += 1
+                    bad = concrete_checks(list(data[:i.l]), i.l)
+                    if not bad:
+                        res['proved'] += 1
+                    for tag, desc in bad:
+                        key = 'dis:%s:%s' % (tag, _mn_class(i.m.name))
+                        if key in seen:
+                            continue
+                        seen.add(key)
+                        res['candidates'].append({'key': key, 'desc': '%s e.g. %s' % (desc, data[:i.l].hex()),
+                                                  'data': {'kind': 'dis', 'bytes': list(data[:i.l]), 'what': tag, 'key': key}})
+    res['nontrivial'] += 1
 
 
 def run_job(job):
@@ -195,6 +238,8 @@ def run_job(job):
            'inconclusive': [], 'samples': [], 'programs': 1, 'nontrivial': 0}
     if job[0] == 'dec':
         run_dec(job[1], res, job[2])
+    elif job[0] == 'render':
+        run_render(job, res)
     else:
         from vf.checks import c10a
         c10a.run(job, res)
